@@ -149,7 +149,8 @@ claim("C16",
 
 
 claim("C02",
-      "Theorem C02_partial_history_invariant (Coq, induction over the history): over ANY finite history of developer "
+      "Theorems C02_history_invariant / C02_partial_history_invariant (Coq, induction over the history; the 'ends by "
+      "itself' hypothesis is discharged for every run by C17_edit_never_panics): over ANY finite history of developer "
       "edits (arbitrary new trees, lock kept) and runs -- each edit run with ANY injected I/O failure on any file and "
       "ANY stop point -- from a state where the lock is absent or ahead of everything written, no ID is ever written "
       "twice and the lock stays above every ID written, provided each edit run uses the lock, its lock write succeeds "
@@ -171,12 +172,14 @@ claim("C17",
       "configuration the finder returns normally -- unreachable!() is unreachable (only log_macro/other_name/EOI can "
       "stand under `file`: computed), every slice and line/column computation is at a char boundary (node spans are, "
       "for any grammar: TokenFacts), the directive scan slices at the end of the statement's first character; "
-      "C17_invalid_utf8_skipped / C17_no_file_panics on the driver. Tie: finder and model on a malformed stream "
+      "moreover every entry position lies inside the text and a decodable file has exactly blen(text) bytes "
+      "(Utf8Facts.decode_length), so every byte slice of the rewriter is in range: C17_edit_never_panics / "
+      "C17_check_never_panics -- for EVERY tree, configuration, lock state and oracle neither mode of the driver model "
+      "ends in a panic or hang; C17_invalid_utf8_skipped. Tie: finder and model on a malformed stream "
       "(token soup, char/byte mutations, Unicode injection, edge shapes), both modes of the real binary on that "
       "stream, the corpus and large files (exit must be 0/1), unreadable file skipped, and measured size scaling.",
-      "Run time is measured, not proved (termination is). Panics inside dependencies are outside the model. The slice "
-      "bounds of the rewriter (positions <= file length) are covered by the byte-level correspondence, not yet by a "
-      "theorem." + COMMON_NOTE,
+      "Run time is measured, not proved (termination is). Panics inside dependencies are outside the model."
+      + COMMON_NOTE,
       "Coq proof (generic PEG termination + token-position invariants + computed grammar conditions) + malformed-input campaign",
       "DESIGN.md section 6, C17")
 
